@@ -118,8 +118,9 @@ class _StubReader:
     flag_inside = None
 
     def __init__(self, f):
-        _StubReader.seen_file = f
-        _StubReader.flag_inside = rv.errors.RAISE_CONTROLLER_VALUE_ERRORS
+        if _StubReader.seen_file is None:  # the outer load only
+            _StubReader.seen_file = f
+            _StubReader.flag_inside = rv.errors.RAISE_CONTROLLER_VALUE_ERRORS
         if _StubReader.plan[0] == "ctor":
             raise _StubReader.plan[1]("injected in constructor")
 
@@ -127,6 +128,17 @@ class _StubReader:
     def object(self):
         if _StubReader.plan[0] == "object":
             raise _StubReader.plan[1]("injected in .object")
+        if _StubReader.plan[0] in ("nested_ok", "nested_fail"):
+            # a nested load (embedded project / effect): re-enter the real read_sunvox_file once
+            inner_plan = ("ok", None) if _StubReader.plan[0] == "nested_ok" else ("object", Boom)
+            outer_plan, _StubReader.plan = _StubReader.plan, inner_plan
+            try:
+                read_sunvox_file(io.BytesIO(b"embedded"))
+            except Boom:
+                pass  # e.g. a module that tolerates a broken embedded payload
+            finally:
+                _StubReader.plan = outer_plan
+            _StubReader.flag_after_nested = rv.errors.RAISE_CONTROLLER_VALUE_ERRORS
         return "the loaded object"
 
 
@@ -140,8 +152,8 @@ def load_restores_flag_and_closes_file(H, _):
     the callee received the opened file; the result / exception is passed through."""
     old = H.bool("old")
     kind = H.choice("argument", ["file", "str", "path"])
-    where = H.choice("callee", ["ok", "ctor", "object"])
-    exc_type = H.choice("exception", EXCS) if where != "ok" else None
+    where = H.choice("callee", ["ok", "ctor", "object", "nested_ok", "nested_fail"])
+    exc_type = H.choice("exception", EXCS) if where in ("ctor", "object") else None
     _StubReader.plan = (where, exc_type)
     _StubReader.seen_file = None
     log = []
@@ -156,8 +168,10 @@ def load_restores_flag_and_closes_file(H, _):
         exc, res = H.raises(read_sunvox_file, arg)
         H.check("flag_restored", H.eq(rv.errors.RAISE_CONTROLLER_VALUE_ERRORS, old))
         H.check("lenient_during_load", _StubReader.flag_inside is rv.errors.RAISE_RANGE_ERRORS_ON_READ)
-        if where == "ok":
+        if where in ("ok", "nested_ok", "nested_fail"):
             H.check("result_passed_through", exc is None and res == "the loaded object")
+            if where != "ok":
+                H.check("still_lenient_after_nested_load", _StubReader.flag_after_nested is rv.errors.RAISE_RANGE_ERRORS_ON_READ)
         else:
             H.check("exception_passed_through", type(exc) is exc_type or (exc_type is StopIteration and isinstance(exc, RuntimeError)))
         if kind == "file":
